@@ -44,9 +44,13 @@ Definition normalized_name (n : name) : name :=
 (* ---------- declarations ---------- *)
 
 (* the default value of a parameter's type, as far as its rendering matters:
-   a value whose repr() is a self-evaluating literal (None, ints, floats,
-   booleans, strings, {}; the token is interned by the harness), or an
-   enumeration literal, whose repr() `name=value` is not an expression *)
+   a value the generated function really gets as default (the token is
+   interned by the harness: None, ints, floats, booleans, strings, {}, and
+   since /repo fix 3896d2a enumeration literals too: pyecore writes a
+   placeholder in the source and installs the value on the compiled
+   function), or DEnum: a default PASTED as text that is not an expression
+   (repr of an enumeration literal, `name=value`) -- what pyecore did for
+   enumerations before that fix; the harness no longer produces it *)
 Inductive dval : Type :=
 | DLit (t : Z)
 | DEnum (t : Z).
